@@ -87,7 +87,7 @@ def cases(tier, seed):
     nstruct = 90 if not T else 700
     k = 2 if not T else 4
     for i in range(nstruct):
-        cls = ['spd', 'dd', 'lap'][i % 3]
+        cls = ['spd', 'dd', 'lap', 'kron', 'spd', 'dd', 'lap'][i % 7]
         d = rng.choice([1, 2, 2, 3, 3, 4, 5])
         while True:
             N = [rng.randint(2, 12 if d <= 3 else 5) for _ in range(d)]
@@ -97,7 +97,7 @@ def cases(tier, seed):
             if not T and (i // 2 + pi) % 2:
                 continue
             for j in range(k if prec is None else 2):
-                cs.append({'gen': 'solve', 'routine': 'amen_solve', 'cls': cls, 'N': N, 'RB': gens.rank_profile(rng, d, 'rand', 2 if cls == 'spd' else 3), 'Rb': gens.rank_profile(rng, d, 'rand', 3),
+                cs.append({'gen': 'solve', 'routine': 'amen_solve', 'cls': cls, 'kfac': ['spd', 'dd'][i % 2], 'N': N, 'RB': gens.rank_profile(rng, d, 'rand', 2 if cls == 'spd' else 3), 'Rb': gens.rank_profile(rng, d, 'rand', 3),
                            'rhs': ['random', 'image'][i % 2], 'cfac': 10 ** rng.uniform(-0.3, 1.5), 'shift': [0.0, 0.1][(i // 3) % 2], 'eps': 10 ** rng.uniform(-9, -3), 'prec': prec,
                            'max_full': [0, 500][j % 2] if prec is not None else [500, 0][(i + j) % 2], 'x0': ['none', 'user', 'none', 'user', 'zero', 'zerocore'][(i // 3 + j + pi) % 6], 'vseed': rng.randrange(2 ** 40), 'sidx': j})
     # right-hand sides orthogonal to the default all-ones guess along one mode (rank one, one zero-mean factor)
